@@ -4,7 +4,7 @@
     * integer `to_hex`                                                                 (integer/manipulators.hpp:43-59)
     * integer `parse` (octal stub, hexadecimal, decimal)                               (integer_impl.hpp:1403-1535)
     * einteger `operator<<` = `convert_to_string` base 10 with `reduce` by one limb    (einteger_impl.hpp:961-1060, 323-377)
-  The arithmetic of `integer` that the printer calls (`/`, `%` on `integer<nbits+1>`, `*`, `+=` in the decimal
+  The arithmetic of `integer` that the printer calls (`/`, `%` on the working type `Integer`, `*`, `+=` in the decimal
   parser) is taken at its meaning — truncating division on the signed values, the ring mod 2^nbits — which is what
   property C08 establishes for it; it is NOT re-derived here.  Everything textual is transcribed loop by loop.
 -/
@@ -26,7 +26,13 @@ def blockDigitsLE (v : Nat) : Nat → Nat → List Nat
   | _, 0 => []
   | k + 1, cap + 1 => (v % 10) :: blockDigitsLE (v / 10) k cap
 
-/-- the `while (!t.iszero())` loop on `integer<nbits+1>` (`W = nbits+1` bits, signed value `t`):
+/-- width of the working type `Integer` of the decimal branch of `convert_to_string`:
+    `integer<(nbits < bitsInBlock ? bitsInBlock : nbits + 1)>` — nbits+1 bits to hold |maxneg|, and at least one
+    whole block so that `block10 = 10^k < 2^(w-1)` is representable (as repaired by "fix: integer operator<< must
+    convert in a type wide enough to hold block10"; the pinned tree used nbits+1 throughout, D19). -/
+def ostreamWidth (nbits w : Nat) : Nat := if nbits < w then w else nbits + 1
+
+/-- the `while (!t.iszero())` loop on `Integer` (`W` bits, signed value `t`):
     `t2 = t / block10; r = t % block10; v = r.block(0); … t = t2;`. -/
 def intOstreamLoop (W w k : Nat) (b10 : Int) : Nat → Int → Nat → List Nat
   | 0, _, _ => []
@@ -39,18 +45,19 @@ def intOstreamLoop (W w k : Nat) (b10 : Int) : Nat → Int → Nat → List Nat
       let ds := blockDigitsLE v k cap
       ds ++ intOstreamLoop W w k b10 fuel q (cap - ds.length)
 
-/-- `block10` as stored in `integer<nbits+1>`: `10^k` reduced to `nbits+1` bits, read as signed. -/
-def block10Value (nbits w : Nat) : Int := toSigned (nbits + 1) (10 ^ digitsInBlock10 w % 2 ^ (nbits + 1))
+/-- `block10` as stored in `Integer`: `10^k` reduced to the working width, read as signed. -/
+def block10Value (nbits w : Nat) : Int :=
+  toSigned (ostreamWidth nbits w) (10 ^ digitsInBlock10 w % 2 ^ ostreamWidth nbits w)
 
 /-- `ostr << integer<nbits,bt>` with default flags, `w` = bits per block. `none`: `block10` is zero in
-    `integer<nbits+1>` (division by zero — not modelled). -/
+    `Integer` (division by zero — not modelled; cannot happen for the four block widths). -/
 def integerOstream (nbits w v : Nat) : Option (List Char) :=
   let b10 := block10Value nbits w
   if b10 = 0 then none else
   let neg := v.testBit (nbits - 1)
   let t : Int := (toSigned nbits v).natAbs
   let cap := nbits / 3 + 1
-  let ds := intOstreamLoop (nbits + 1) w (digitsInBlock10 w) b10 (cap + 1) t cap
+  let ds := intOstreamLoop (ostreamWidth nbits w) w (digitsInBlock10 w) b10 (cap + 1) t cap
   let buf := List.replicate (cap - ds.length) '0' ++ ds.reverse.map digitChar
   let s := stripZeros buf
   let s := if s.isEmpty then ['0'] else s
@@ -81,22 +88,27 @@ def integerForm (s : List Char) : IntForm :=
     else .other
   | _ => if !r.isEmpty && allB isDigit r then .decimal else .other
 
-/-- `setbyte(byteIndex, data)`: overwrite bits `8·idx … 8·idx+7`. -/
-def setByte (v idx byte : Nat) : Nat :=
-  v % 2 ^ (8 * idx) + (byte % 256) * 2 ^ (8 * idx) + v / 2 ^ (8 * idx + 8) * 2 ^ (8 * idx + 8)
+/-- `setbyte(byteIndex, data)`: overwrite bits `8·idx … min(8·idx+8, nbits) − 1` with the low bits of `data`
+    (`end = (start + 8 < nbits ? start + 8 : nbits)`: the byte is clipped at the width, so a partial most
+    significant byte never sets storage bits outside `nbits`; nothing is written when `8·idx ≥ nbits`). -/
+def setByte (nbits v idx byte : Nat) : Nat :=
+  let lo := 8 * idx
+  let cnt := min (lo + 8) nbits - lo
+  v % 2 ^ lo + (byte % 2 ^ cnt) * 2 ^ lo + v / 2 ^ (lo + cnt) * 2 ^ (lo + cnt)
 
 /-- two's complement negation in `nbits` bits (`value = -value`). -/
 def negN (nbits v : Nat) : Nat := (2 ^ nbits - v % 2 ^ nbits) % 2 ^ nbits
 
-/-- the reverse scan of the hexadecimal branch (argument: the REVERSED text), guarded by
-    `byteIndex < maxByteIndex` where `maxByteIndex = nbits / 8`.  Returns the value and `bSuccess`. -/
+/-- the reverse scan of the hexadecimal branch (argument: the REVERSED text) with `maxByteIndex = (nbits+7)/8`
+    (as repaired: the partial most significant byte is read, D20).  The scan runs to the `x` whatever the number
+    of digits; bytes are stored only while `byteIndex < maxByteIndex` (as repaired: the sign in front of a
+    full-width digit string is reached).  Returns the value and `bSuccess`. -/
 def intHexLoop (nbits maxByte : Nat) : List Char → Nat → Nat → Bool → Nat → Nat × Bool
   | [], _, _, _, value => (value, true)
   | c :: cs, byte, idx, odd, value =>
-    if idx ≥ maxByte then (value, true)
-    else if c = '\'' then intHexLoop nbits maxByte cs byte idx odd value
+    if c = '\'' then intHexLoop nbits maxByte cs byte idx odd value
     else if c = 'x' ∨ c = 'X' then
-      let value := if odd then setByte value idx byte else value
+      let value := if odd ∧ idx < maxByte then setByte nbits value idx byte else value
       match cs with
       | '0' :: rest =>
         match rest with
@@ -109,7 +121,8 @@ def intHexLoop (nbits maxByte : Nat) : List Char → Nat → Nat → Bool → Na
       let d := (hexVal? c).getD 0
       if odd then
         let byte' := byte + d * 16
-        intHexLoop nbits maxByte cs byte' (idx + 1) false (setByte value idx byte')
+        intHexLoop nbits maxByte cs byte' (idx + 1) false
+          (if idx < maxByte then setByte nbits value idx byte' else value)
       else intHexLoop nbits maxByte cs d idx true value
 
 /-- the reverse scan of the decimal branch: `-` negates what has been accumulated, `+` stops, a digit adds
@@ -126,7 +139,7 @@ def integerParse (nbits : Nat) (s : List Char) : Option Nat :=
   match integerForm s with
   | .octal => none
   | .hex =>
-    let (v, ok) := intHexLoop nbits (nbits / 8) s.reverse 0 0 false 0
+    let (v, ok) := intHexLoop nbits ((nbits + 7) / 8) s.reverse 0 0 false 0
     if ok then some (v % 2 ^ nbits) else none
   | .decimal => some (intDecLoop nbits s.reverse 0 (1 % 2 ^ nbits))
   | .other => none
